@@ -13,6 +13,9 @@
 //!    the agent is polled at every announced instant; every transmission carries the request's
 //!    bytes and addressing, every event happens at its scheduled instant, WaitUntil is the earliest
 //!    scheduled instant, every transaction completes exactly once, answered ones by delivery;
+//!  * addressing matrix (C18): 21 local x 21 destination addresses of every kind (IPv4, IPv6 global,
+//!    mapped, NAT64, multicast, link-local with and without scope ids, flow info, port 0) x request
+//!    served to its time-out / indication / response / application data x transports;
 //!  * purity (C20): each history is run three times on fresh threads, the third alongside unrelated
 //!    agents; the complete reply transcripts must be identical.
 use super::*;
@@ -110,8 +113,125 @@ impl Noise {
     }
 }
 
+/// Local / destination addresses of the addressing matrix: every kind of address a socket can have.
+pub const N_SPECIAL: usize = 21;
+pub fn special(i: usize) -> SocketAddr {
+    let v6 = |ip: &str, port: u16, flow: u32, scope: u32| SocketAddr::V6(SocketAddrV6::new(ip.parse().unwrap(), port, flow, scope));
+    match i {
+        0 => "10.0.0.1:1000".parse().unwrap(),
+        1 => "0.0.0.0:0".parse().unwrap(),
+        2 => "127.0.0.1:65535".parse().unwrap(),
+        3 => "255.255.255.255:3478".parse().unwrap(),
+        4 => "224.0.0.1:3478".parse().unwrap(),
+        5 => "169.254.1.1:3478".parse().unwrap(),
+        6 => "192.0.2.1:0".parse().unwrap(),
+        7 => v6("::", 0, 0, 0),
+        8 => v6("::1", 3478, 0, 0),
+        9 => v6("2001:db8::1", 3478, 0, 0),
+        10 => v6("::ffff:10.0.0.1", 1000, 0, 0),
+        11 => v6("64:ff9b::a00:1", 3478, 0, 0),
+        12 => v6("ff02::1", 3478, 0, 2),
+        13 => v6("fe80::1", 5000, 0, 0),
+        14 => v6("fe80::1", 5000, 0, 3),
+        15 => v6("fe80::2", 3478, 0, 0),
+        16 => v6("fe80::2", 3478, 0, 3),
+        17 => v6("fe80::2", 3478, 0, 7),
+        18 => v6("2001:db8::1", 3478, 5, 0),
+        19 => v6("fec0::1", 3478, 0, 0),
+        _ => v6("2001:db8::1", 3478, 0, 9),
+    }
+}
+
+/// Addressing matrix (C18): local address `kind`, destination `n`, message `via` (0 request served to
+/// its time-out, 1 indication, 2 success response, 3 application data).
+fn addressing(sc: &Scenario) -> Outcome {
+    let base = base_instant();
+    let t = if sc.tcp { TransportType::Tcp } else { TransportType::Udp };
+    let (local, dest) = (special(sc.kind as usize), special(sc.n));
+    let mut a = if sc.mix == 1 { StunAgent::builder(t, local).remote_addr(dest).build() } else { StunAgent::builder(t, local).build() };
+    let mut out = Outcome { breaches: vec![], transcript: vec![] };
+    let check = |out: &mut Outcome, what: &str, data: &[u8], want: &[u8], from: SocketAddr, to: SocketAddr, tr: TransportType| {
+        if data != want {
+            out.breaches.push(("C18", "matrix/bytes".into(), format!("{what}: not the bytes handed over"), crate::common::fmt_bytes(want), crate::common::fmt_bytes(data)));
+        }
+        if from != local || to != dest || tr != t {
+            out.breaches.push(("C18", "matrix/addressing".into(), format!("{what}: not addressed local -> destination over the agent's transport"), format!("{local:?} -> {dest:?}"), format!("{from:?} -> {to:?}")));
+        }
+    };
+    if a.local_addr() != local || a.transport() != t || a.remote_addr() != (sc.mix == 1).then_some(dest) {
+        out.breaches.push(("C18", "matrix/agent-identity".into(), "the agent does not report the addresses it was built with".into(), format!("{local:?} / {:?}", (sc.mix == 1).then_some(dest)), format!("{:?} / {:?}", a.local_addr(), a.remote_addr())));
+    }
+    match sc.via {
+        0 => {
+            let sw = Software::new("scale-0").unwrap();
+            let w = req_wire(0);
+            match a.send(build_req(0, &sw), dest, base) {
+                Ok(tr) => check(&mut out, "initial transmission", tr.data(), &w, tr.from, tr.to, tr.transport),
+                Err(e) => {
+                    out.breaches.push(("C05", "matrix/send-refused".into(), "sending a request was refused".into(), "Ok".into(), format!("{e:?}")));
+                    return out;
+                }
+            }
+            match a.request_transaction(stid(0).into()) {
+                Some(r) if r.peer_address() == dest => {}
+                Some(r) => out.breaches.push(("C18", "matrix/peer-address".into(), "the outstanding request reports the wrong peer".into(), format!("{dest:?}"), format!("{:?}", r.peer_address()))),
+                None => out.breaches.push(("C05", "matrix/outstanding-set".into(), "a request just sent is not outstanding".into(), "Some".into(), "None".into())),
+            }
+            let mut now = base;
+            let mut n_tx = 1;
+            for _ in 0..40 {
+                match a.poll(now) {
+                    StunAgentPollRet::WaitUntil(i) => {
+                        if i <= now {
+                            break;
+                        }
+                        now = i;
+                    }
+                    StunAgentPollRet::SendData(tr) => {
+                        n_tx += 1;
+                        check(&mut out, &format!("transmission #{n_tx}"), tr.data(), &w, tr.from, tr.to, tr.transport);
+                    }
+                    _ => break,
+                }
+            }
+            let want_tx = if sc.tcp { 1 } else { 7 };
+            if n_tx != want_tx {
+                out.breaches.push(("C06", "matrix/transmissions".into(), "the default schedule did not produce the stated number of transmissions".into(), want_tx.to_string(), n_tx.to_string()));
+            }
+            out.transcript.push(n_tx as u64);
+        }
+        1 | 2 => {
+            let class = if sc.via == 1 { MessageClass::Indication } else { MessageClass::Success };
+            let sw = Software::new("peer").unwrap();
+            let mut b = Message::builder(MessageType::from_class_method(class, BINDING), stid(1).into());
+            b.add_attribute(&sw).unwrap();
+            let w = plain_wire(if sc.via == 1 { 1 } else { 2 }, stid(1));
+            match a.send(b, dest, base) {
+                Ok(tr) => check(&mut out, "indication / response", tr.data(), &w, tr.from, tr.to, tr.transport),
+                Err(e) => out.breaches.push(("C18", "matrix/other-refused".into(), "sending an indication / response failed".into(), "Ok".into(), format!("{e:?}"))),
+            }
+            if a.request_transaction(stid(1).into()).is_some() || !matches!(a.poll(base), StunAgentPollRet::WaitUntil(_)) {
+                out.breaches.push(("C18", "matrix/other-left-transaction".into(), "an indication / response left a transaction or an event behind".into(), "nothing".into(), "something".into()));
+            }
+        }
+        _ => {
+            let tr = a.send_data(DATA_PAYLOAD, dest);
+            check(&mut out, "application data", tr.data(), DATA_PAYLOAD, tr.from, tr.to, tr.transport);
+        }
+    }
+    // merely sending never validates
+    if a.is_validated_peer(dest) {
+        out.breaches.push(("C15", "matrix/validated-by-sending".into(), "an address that was only sent to is validated".into(), "false".into(), "true".into()));
+    }
+    out
+}
+
 pub fn run_scenario(sc: &Scenario) -> Outcome {
-    match guarded(|| if sc.family == "peers" { peers(sc) } else { transactions(sc) }) {
+    match guarded(|| match sc.family.as_str() {
+        "peers" => peers(sc),
+        "addr" => addressing(sc),
+        _ => transactions(sc),
+    }) {
         Ok(o) => o,
         Err(p) => Outcome { breaches: vec![("C01", format!("panic/scale/{}", sc.family), format!("the agent panicked in a long history: {}", p.message), "a reply".into(), format!("panic at {}", p.location))], transcript: vec![0xDEAD] },
     }
@@ -409,7 +529,11 @@ pub fn judge(prop: &str, sc: &Scenario, acc: &mut Acc) {
             }
         }
     }
-    acc.outcome(if sc.family == "peers" { "long history: many peers" } else { "long history: many concurrent requests" });
+    acc.outcome(match sc.family.as_str() {
+        "peers" => "long history: many peers",
+        "addr" => "addressing matrix: local x destination x message kind",
+        _ => "long history: many concurrent requests",
+    });
 }
 
 pub fn scenarios(prop: &str, thorough: bool) -> Vec<Scenario> {
@@ -430,6 +554,17 @@ pub fn scenarios(prop: &str, thorough: bool) -> Vec<Scenario> {
                             continue;
                         }
                         v.push(Scenario { family: "peers".into(), tcp, kind, n, via, mix: 0, noise: false });
+                    }
+                }
+            }
+        }
+    }
+    if matches!(prop, "C18" | "C15") {
+        for tcp in [false, true] {
+            for l in 0..N_SPECIAL {
+                for d in 0..N_SPECIAL {
+                    for via in 0..=3u8 {
+                        v.push(Scenario { family: "addr".into(), tcp, kind: l as u8, n: d, via, mix: ((l + d) % 2) as u8, noise: false });
                     }
                 }
             }
